@@ -314,7 +314,9 @@ static void iauth_xquery_x_reply(const char service[], const char routing[],
                    || (srv->type == COMBINED)) {
             int had_account = (req->account[0] != '\0');
 
-            iauth_xquery_set_account(req, reply + 3);
+            /* Only the first account stamp is kept. */
+            if (!had_account)
+                iauth_xquery_set_account(req, reply + 3);
             /* The +! hold is only outstanding until the first stamp. */
             if (BITSET_GET(cli->modes, IAUTH_XQUERY_HIDDEN_ONLY)
                 && !had_account && (req->account[0] != '\0')) {
